@@ -49,9 +49,9 @@ var validRePool = []string{
 	`a|`, `|refs/stash`, `refs/stash`, `refs/heads/(a|abc)`, `(?i)REFS/HEADS/.*`, `refs/tags/b|refs/tags/bc.`, ``,
 }
 
-var validSymPool = []string{"mine", "a.b", "a.c", "a.b.d", "tags.releases", "tags", "branches.mine", "other", "ignored", "a.other", "x.y.z.w", ".lead", "trail.", "do..ts", "UP", "e.f", "deep.1.2.3.4.5.6.7.8.9.10.11.12.13.14"}
+var validSymPool = []string{"tags.rel.rc", "branches.team.alice", "mine.topic.wip", "mine", "a.b", "a.c", "a.b.d", "tags.releases", "tags", "branches.mine", "other", "ignored", "a.other", "x.y.z.w", ".lead", "trail.", "do..ts", "UP", "e.f", "deep.1.2.3.4.5.6.7.8.9.10.11.12.13.14"}
 
-var symPool = []string{"mine", "a", "a.b", "a.c", "a.b.d", "tags.releases", "tags", "branches.mine", "other", "ignored", "a.other", "x.y.z.w", ".lead", "trail.", "do..ts", "UP", "undefinedgrp", "e.f", "deep.1.2.3.4.5.6.7.8.9.10.11.12.13.14"}
+var symPool = []string{"tags.rel.rc", "branches.team.alice", "mine.topic.wip", "mine", "a", "a.b", "a.c", "a.b.d", "tags.releases", "tags", "branches.mine", "other", "ignored", "a.other", "x.y.z.w", ".lead", "trail.", "do..ts", "UP", "undefinedgrp", "e.f", "deep.1.2.3.4.5.6.7.8.9.10.11.12.13.14"}
 
 func genPrefix(r *rng) string {
 	s := refPool[r.n(len(refPool))]
@@ -153,7 +153,19 @@ func genRefsCase(r *rng) (cfg []cfgEntry, opts []string, hasRoots bool, refs []s
 		case 5:
 			opts = append(opts, []string{"include-regexp", "exclude-regexp"}[r.n(2)]+"="+hxs(rePool[r.n(len(rePool))]))
 		case 6:
-			g := []string{"branches", "tags", "remotes", "pulls", "changes", "notes", "stash", "mine", "a", "a.b", "undefinedx", "", "other"}[r.n(13)]
+			cands := []string{"branches", "tags", "remotes", "pulls", "changes", "notes", "stash", "mine", "a", "a.b", "undefinedx", "", "other"}
+			// the groups this very configuration defines, however deeply nested (a group three levels down whose
+			// middle level is implicit must still be confined by its outermost ancestor: seeded change C06n)
+			var own []string
+			for sym := range defined {
+				if strings.Contains(sym, ".") {
+					own = append(own, sym)
+				}
+			}
+			sort.Strings(own)
+			cands = append(cands, own...)
+			cands = append(cands, own...)
+			g := cands[r.n(len(cands))]
 			if valid && !defined[g] {
 				g = "tags"
 			}
